@@ -70,6 +70,7 @@ Ltac reify_pieces l :=
   lazymatch l with
   | ?a ++ ?b => let ra := reify_pieces a in let rb := reify_pieces b in constr:(ra ++ rb)
   | @nil _ => constr:(@nil lpiece)
+  | ?x :: ?r => let rr := reify_pieces r in constr:(PLit [x] :: rr)
   | ?x =>
       match x with
       | _ => let _ := match goal with _ => is_const x end in constr:([PLit x])
@@ -268,3 +269,421 @@ Proof. induction 1; simpl; [apply good_nil | apply good_app; assumption]. Qed.
 
 Lemma lit_good : forall l, latex_wf_b l = true -> good l.
 Proof. intros. apply good_iff_b. assumption. Qed.
+
+(* ---------------------------------------------------------------- the recursion (flavour FLatex) *)
+Lemma mapM_good : forall {A} (f : A -> res (list ltok)) (P : A -> Prop) l ls,
+  (forall x y, P x -> f x = Ok y -> good y) -> Forall P l -> mapM f l = Ok ls -> Forall good ls.
+Proof.
+  intros A f P l ls Hf HP HM. apply mapM_Forall2 in HM. induction HM.
+  - constructor.
+  - inv HP. constructor; eauto.
+Qed.
+
+(* a stream that is empty or ends with an atom (the one-byte print_mul(), or the sign) *)
+Definition tail_atom (o : list ltok) : Prop :=
+  o = [] \/ exists X t, o = X ++ [t] /\ lclass t = BA.
+
+Lemma good_removelast : forall o, good o -> tail_atom o -> good (removelast o).
+Proof.
+  intros o G [->|(X & t & -> & Ht)]; [apply good_nil|].
+  rewrite removelast_last. destruct G as [G1 G2]. split.
+  - rewrite forallb_app in G1. apply andb_prop in G1. apply G1.
+  - rewrite map_app in G2. simpl in G2. rewrite Ht in G2.
+    apply (wn_snoc_atom_inv lkind lkind_eqb lkind_eqb_eq). exact G2.
+Qed.
+
+Lemma tail_atom_snoc : forall o t, lclass t = BA -> tail_atom (o ++ [t]).
+Proof. intros. right. exists o, t. split; [reflexivity | assumption]. Qed.
+
+Lemma Ok_inj : forall {A} (a b : A), Ok a = Ok b -> a = b.
+Proof. intros A a b H. injection H. auto. Qed.
+Ltac oki H := apply Ok_inj in H; subst.
+
+Ltac rb H :=
+  unfold rbind in H;
+  repeat match type of H with
+         | match ?r with _ => _ end = Ok _ =>
+             let E := fresh "E" in destruct r eqn:E; try discriminate
+         end.
+
+Lemma rel_op_good : forall code op, rel_op FLatex code = Some op -> good op.
+Proof.
+  intros code op H. unfold rel_op in H.
+  repeat match type of H with
+         | (if ?c then _ else _) = _ => destruct c; [inv H; apply lit_good; reflexivity|]
+         end.
+  discriminate.
+Qed.
+
+Section Rec.
+  Variable rec : flavour -> expr -> res (list ltok).
+  Hypothesis IH : forall e l, latex_guard e = true -> rec FLatex e = Ok l -> good l.
+
+  Lemma app_good : forall e l, latex_guard e = true -> StrModel.app rec FLatex e = Ok l -> good l.
+  Proof.
+    intros e l G H. destruct e; simpl in H; try (eapply IH; eassumption).
+    oki H. apply good_pnum.
+  Qed.
+
+  Lemma paren_good : forall s, good s -> good (parenthesize FLatex s).
+  Proof. intros s Hs. unfold parenthesize. by_template. exact Hs. Qed.
+
+  Lemma paren_lt_good : forall e p l, latex_guard e = true -> paren_lt rec FLatex e p = Ok l -> good l.
+  Proof.
+    intros e p l G H. unfold paren_lt in H. rb H. oki H.
+    pose proof (app_good _ _ G E) as Ga. destruct (precedence e <? p); [apply paren_good|]; exact Ga.
+  Qed.
+  Lemma paren_le_good : forall e p l, latex_guard e = true -> paren_le rec FLatex e p = Ok l -> good l.
+  Proof.
+    intros e p l G H. unfold paren_le in H. rb H. oki H.
+    pose proof (app_good _ _ G E) as Ga. destruct (precedence e <=? p); [apply paren_good|]; exact Ga.
+  Qed.
+
+  Lemma mapM_app_good : forall l ls,
+    forallb latex_guard l = true -> mapM (StrModel.app rec FLatex) l = Ok ls -> Forall good ls.
+  Proof.
+    intros l ls G H. eapply (mapM_good _ (fun x => latex_guard x = true)); [apply app_good | | exact H].
+    apply Forall_forall. apply forallb_forall. exact G.
+  Qed.
+
+  Lemma app_vec_good : forall l s, forallb latex_guard l = true -> app_vec rec FLatex l = Ok s -> good s.
+  Proof.
+    intros l s G H. unfold app_vec in H. rb H. oki H.
+    apply good_join; [apply lit_good; reflexivity | eapply mapM_app_good; eauto].
+  Qed.
+
+  Lemma latex_guard_num : forall n, latex_guard (ENum n) = true.
+  Proof. reflexivity. Qed.
+
+  Lemma print_pow_good : forall a c l,
+    latex_guard a = true -> latex_guard c = true -> print_pow rec FLatex a c = Ok l -> good l.
+  Proof.
+    intros a c l Ga Gc H. unfold print_pow in H.
+    destruct (is_E a).
+    { rb H. oki H. pose proof (app_good _ _ Gc E). by_template. assumption. }
+    destruct (is_half c).
+    { rb H. oki H. pose proof (app_good _ _ Ga E). by_template. assumption. }
+    assert (Hdef : rbind (paren_le rec FLatex a PREC_Pow) (fun sa =>
+                   rbind (StrModel.app rec FLatex c) (fun sc =>
+                     Ok (sa ++ (if Nat.ltb 1 (lbytes sc) then t_caretbr ++ sc ++ t_rbrace
+                                else t_caret ++ sc)))) = Ok l -> good l).
+    { intro H'. rb H'. oki H'. pose proof (paren_le_good _ _ _ Ga E) as G1.
+      pose proof (app_good _ _ Gc E0) as G2.
+      match goal with |- good (_ ++ (if ?cnd then _ else _)) => destruct cnd end; by_template; assumption. }
+    destruct c as [n|nm|nm idx|nm|c0 d0|c0 d|b x|code a0|code a0 b0|code args|nm args|code a0 b0|a0 xs|a0 d0|pl|bv|s0 e0 lo ro|code];
+      try exact (Hdef H).
+    destruct n as [z|p q|rn rd imn imd|bb|re im|dd|]; try exact (Hdef H).
+    destruct p as [|pp|pp]; try exact (Hdef H).
+    destruct pp; try exact (Hdef H).
+    rb H. oki H. pose proof (app_good _ _ Ga E). by_template; auto with good.
+  Qed.
+
+  Lemma add_term_good : forall k v l, latex_guard k = true -> add_term rec FLatex k v = Ok l -> good l.
+  Proof.
+    intros k v l G H. unfold add_term in H.
+    destruct (num_is v 1); [eapply paren_lt_good; eauto|].
+    destruct (num_is v (-1)).
+    { rb H. oki H. pose proof (paren_lt_good _ _ _ G E). by_template. assumption. }
+    rb H. oki H. pose proof (paren_lt_good _ _ _ (latex_guard_num v) E).
+    pose proof (paren_lt_good _ _ _ G E0). unfold print_mul. by_template; assumption.
+  Qed.
+
+  Lemma good_cons_atom_inv : forall t l, lclass t = BA -> good (t :: l) -> good l.
+  Proof.
+    intros t l Ht [G1 G2]. split.
+    - simpl in G1. apply andb_prop in G1. apply G1.
+    - simpl in G2. rewrite Ht in G2. apply (wn_atom_inv lkind). exact G2.
+  Qed.
+
+  Lemma add_terms_good : forall d first l,
+    forallb (fun p => latex_guard (fst p)) d = true -> add_terms rec FLatex first d = Ok l -> good l.
+  Proof.
+    induction d as [|[k v] d IHd]; intros first l G H; simpl in H.
+    - oki H. apply good_nil.
+    - simpl in G. apply andb_prop in G. destruct G as [Gk Gd].
+      rb H. oki H. pose proof (add_term_good _ _ _ Gk E) as Gt. pose proof (IHd _ _ Gd E0) as Gr.
+      apply good_app; [|exact Gr].
+      destruct first; [exact Gt|].
+      assert (Hplus : good (t_plus ++ a)) by (by_template; exact Gt).
+      destruct a as [|t tl0]; [exact Hplus|].
+      destruct t as [c|c|dl|dl]; try exact Hplus.
+      destruct (N.eq_dec c 45) as [->|Hne].
+      + assert (good tl0) by (eapply good_cons_atom_inv; [|exact Gt]; reflexivity).
+        change (good (t_minus ++ tl0)). by_template. assumption.
+      + destruct c as [|q]; [exact Hplus|].
+        do 6 (try destruct q as [q|q|]); try exact Hplus; exfalso; apply Hne; reflexivity.
+  Qed.
+
+  Lemma pmap_insert_guard : forall k v m,
+    latex_guard k = true -> forallb (fun p => latex_guard (fst p)) m = true ->
+    forallb (fun p => latex_guard (fst p)) (pmap_insert k v m) = true.
+  Proof.
+    induction m as [|[k' v'] m IHm]; intros Gk Gm; simpl.
+    - rewrite Gk. reflexivity.
+    - simpl in Gm. apply andb_prop in Gm. destruct Gm as [G1 G2].
+      destruct (printer_lt k' k); simpl.
+      + rewrite G1. simpl. apply IHm; assumption.
+      + destruct (printer_lt k k'); simpl; rewrite ?Gk, ?G1, ?G2; reflexivity.
+  Qed.
+  Lemma pmap_of_guard : forall d,
+    forallb (fun p => latex_guard (fst p)) d = true ->
+    forallb (fun p => latex_guard (fst p)) (pmap_of d) = true.
+  Proof.
+    intros d G. unfold pmap_of.
+    assert (forall m, forallb (fun p => latex_guard (fst p)) m = true ->
+                      forallb (fun p => latex_guard (fst p))
+                        (fold_left (fun m p => pmap_insert (fst p) (snd p) m) d m) = true) as Hgen.
+    { induction d as [|[k v] d IHd]; intros m Gm; simpl; [exact Gm|].
+      simpl in G. apply andb_prop in G. destruct G as [Gk Gd].
+      apply IHd; [exact Gd|]. apply pmap_insert_guard; assumption. }
+    apply Hgen. reflexivity.
+  Qed.
+
+  Lemma print_add_good : forall c d l,
+    forallb (fun p => latex_guard (fst p)) d = true -> print_add rec FLatex c d = Ok l -> good l.
+  Proof.
+    intros c d l G H. unfold print_add in H. pose proof (pmap_of_guard _ G) as Gs.
+    destruct (negb (num_is c 0)).
+    - rb H. oki H. apply good_app; [apply good_pnum | eapply add_terms_good; eauto].
+    - eapply add_terms_good; eauto.
+  Qed.
+
+  (* the dictionary loop of Mul *)
+  Lemma mul_factors_good : forall d o num o2 den o' num' o2' den',
+    forallb (fun q => latex_guard (fst q) && latex_guard (snd q)) d = true ->
+    good o -> tail_atom o -> good o2 -> tail_atom o2 ->
+    mul_factors rec FLatex d o num o2 den = Ok (o', num', o2', den') ->
+    good o' /\ tail_atom o' /\ good o2' /\ tail_atom o2'.
+  Proof.
+    induction d as [|[b x] d IHd]; intros o num o2 den o' num' o2' den' G Go To Go2 To2 H; simpl in H.
+    - inv H. auto.
+    - simpl in G. apply andb_prop in G. destruct G as [Gbx Gd]. apply andb_prop in Gbx. destruct Gbx as [Gb Gx].
+      assert (Hfac : True) by exact I. clear Hfac.
+      destruct (if is_E b then None else neg_rational_exp x) as [nx|].
+      + rb H.
+        assert (good a).
+        { destruct (num_is nx 1); [exact (paren_lt_good _ _ _ Gb E) | exact (print_pow_good _ _ _ Gb (latex_guard_num nx) E)]. }
+        eapply IHd; [exact Gd | exact Go | exact To | | | exact H].
+        * unfold print_mul. by_template; assumption.
+        * unfold print_mul. rewrite app_assoc. apply tail_atom_snoc. reflexivity.
+      + rb H.
+        assert (good a).
+        { destruct (is_num_int x 1); [exact (paren_lt_good _ _ _ Gb E) | exact (print_pow_good _ _ _ Gb Gx E)]. }
+        eapply IHd; [exact Gd | | | exact Go2 | exact To2 | exact H].
+        * unfold print_mul. by_template; assumption.
+        * unfold print_mul. rewrite app_assoc. apply tail_atom_snoc. reflexivity.
+  Qed.
+
+  Lemma print_mul_node_good : forall c d l,
+    forallb (fun q => latex_guard (fst q) && latex_guard (snd q)) d = true ->
+    print_mul_node rec FLatex c d = Ok l -> good l.
+  Proof.
+    intros c d l G H. unfold print_mul_node in H.
+    (* the state before the dictionary loop *)
+    match type of H with
+    | rbind ?init ?k = _ =>
+        assert (Hinit : forall o0 num0 o20 den0, init = Ok (o0, num0, o20, den0) ->
+                  good o0 /\ tail_atom o0 /\ good o20 /\ tail_atom o20)
+    end.
+    { intros o0 num0 o20 den0 Hi.
+      destruct (num_is c (-1)).
+      { inv Hi. repeat split; try apply good_nil; try (left; reflexivity).
+        - apply lit_good. reflexivity.
+        - apply (tail_atom_snoc [] (LC 45)). reflexivity. }
+      destruct (negb (num_is c 1)); [|inv Hi; repeat split; try apply good_nil; left; reflexivity].
+      cbn [split_mul_coef negb] in Hi. destruct (coef_numer_denom c) as [numer denom].
+      rb Hi. inv Hi. cbn [fst snd].
+      assert (Hpart : forall (m : number) (b : bool) (r : list ltok * bool),
+                (if b then rbind (paren_lt rec FLatex (ENum m) PREC_Mul) (fun s => Ok (s ++ print_mul FLatex, true))
+                 else Ok ([], false)) = Ok r -> good (fst r) /\ tail_atom (fst r)).
+      { intros m b0 r Hr. destruct b0.
+        - rb Hr. oki Hr. cbn [fst]. pose proof (paren_lt_good _ _ _ (latex_guard_num m) E1).
+          split; [unfold print_mul; by_template; assumption | apply tail_atom_snoc; reflexivity].
+        - oki Hr. split; [apply good_nil | left; reflexivity]. }
+      assert (Hpart2 : forall (m : number) (b : bool) (r : list ltok * nat),
+                (if b then rbind (paren_lt rec FLatex (ENum m) PREC_Mul) (fun s => Ok (s ++ print_mul FLatex, S O))
+                 else Ok ([], O)) = Ok r -> good (fst r) /\ tail_atom (fst r)).
+      { intros m b0 r Hr. destruct b0.
+        - rb Hr. oki Hr. cbn [fst]. pose proof (paren_lt_good _ _ _ (latex_guard_num m) E1).
+          split; [unfold print_mul; by_template; assumption | apply tail_atom_snoc; reflexivity].
+        - oki Hr. split; [apply good_nil | left; reflexivity]. }
+      destruct (Hpart _ _ _ E) as [? ?]. destruct (Hpart2 _ _ _ E0) as [? ?]. auto. }
+    match type of H with
+    | rbind ?init _ = _ => destruct init as [[[[o0 num0] o20] den0]| | |] eqn:Ei; try discriminate
+    end.
+    destruct (Hinit _ _ _ _ eq_refl) as (Go0 & To0 & Go20 & To20). clear Hinit.
+    cbn [rbind] in H.
+    destruct (mul_factors rec FLatex d o0 num0 o20 den0) as [[[[o num] o2] den]| | |] eqn:Em; try discriminate.
+    cbn [rbind] in H.
+    destruct (mul_factors_good _ _ _ _ _ _ _ _ _ G Go0 To0 Go20 To20 Em) as (Go & To & Go2 & To2).
+    assert (Gs : good (removelast (if num then o else o ++ t_one ++ print_mul FLatex))).
+    { apply good_removelast.
+      - destruct num; [exact Go|]. unfold print_mul. by_template. exact Go.
+      - destruct num; [exact To|]. unfold print_mul. rewrite app_assoc. apply tail_atom_snoc. reflexivity. }
+    pose proof (good_removelast _ Go2 To2) as Gs2.
+    destruct den as [|[|den]]; oki H; [exact Gs | |]; unfold print_div; by_template; assumption.
+  Qed.
+
+  Lemma print_function_good : forall code args l,
+    forallb latex_guard args = true -> print_function rec FLatex code args = Ok l -> good l.
+  Proof.
+    intros code args l G H. unfold print_function in H. rb H. oki H.
+    pose proof (app_vec_good _ _ G E). unfold parenthesize. by_template; auto with good.
+  Qed.
+
+  Lemma print_logic_good : forall code args l,
+    forallb latex_guard args = true -> print_logic rec FLatex code args = Ok l -> good l.
+  Proof.
+    intros code args l G H. unfold print_logic in H. rb H. oki H.
+    apply good_join.
+    - unfold latex_logic_op. destruct (code =? TC_And); [apply lit_good; reflexivity|].
+      destruct (code =? TC_Or); apply lit_good; reflexivity.
+    - eapply (mapM_good _ (fun x => latex_guard x = true)); [| |exact E].
+      + intros x y Gx Hx. rb Hx. oki Hx. pose proof (app_good _ _ Gx E0).
+        destruct (is_logic_other code x); [apply paren_good|]; assumption.
+      + apply Forall_forall. apply forallb_forall. exact G.
+  Qed.
+
+  Lemma deriv_groups_good : forall rest prev count l,
+    latex_guard prev = true -> forallb latex_guard rest = true ->
+    deriv_groups rec prev count rest = Ok l -> good l.
+  Proof.
+    induction rest as [|x rest IHr]; intros prev count l Gp Gr H; simpl in H.
+    - rb H. oki H. pose proof (app_good _ _ Gp E).
+      destruct (count =? 1); by_template; auto with good.
+    - simpl in Gr. apply andb_prop in Gr. destruct Gr as [Gx Gr].
+      destruct (negb (expr_eqb prev x)).
+      + rb H. oki H. pose proof (app_good _ _ Gp E). pose proof (IHr _ _ _ Gx Gr E0).
+        destruct (count =? 1); by_template; auto with good.
+      + eapply IHr; eauto.
+  Qed.
+
+  Lemma p_constant_good : forall nm l, p_constant FLatex nm = Ok l -> good l.
+  Proof.
+    intros nm l H. unfold p_constant in H.
+    repeat match type of H with
+           | (if ?c then _ else _) = _ => destruct c; [oki H; apply lit_good; reflexivity|]
+           end.
+    discriminate.
+  Qed.
+  Lemma p_atom_good : forall code l, p_atom FLatex code = Ok l -> good l.
+  Proof.
+    intros code l H. unfold p_atom in H.
+    repeat match type of H with
+           | (if ?c then _ else _) = _ => destruct c; [oki H; apply lit_good; reflexivity|]
+           end.
+    discriminate.
+  Qed.
+
+  Lemma print_node_good : forall e l, latex_guard e = true -> print_node rec FLatex e = Ok l -> good l.
+  Proof.
+    intros e l G H. unfold latex_guard in G.
+    destruct e as [n|nm|nm idx|nm|c d|c d|b x|code a|code a c|code args|nm args|code a c|a xs|a d|pl|bv|s x lo ro|code];
+      cbn [all_nodes] in G; apply andb_prop in G; destruct G as [Gn Gk]; cbn [print_node] in H.
+    - (* ENum *) oki H. apply good_pnum.
+    - (* ESym *) oki H. apply good_latex_symbol. unfold latex_node_ok in Gn. simpl in Gn.
+      apply andb_prop in Gn. apply Gn.
+    - (* EDummy *) oki H. apply good_latex_symbol. unfold latex_node_ok in Gn. simpl in Gn.
+      apply andb_prop in Gn. apply Gn.
+    - (* EConst *) eapply p_constant_good; eauto.
+    - (* EAdd *) eapply print_add_good; eauto.
+    - (* EMul *) eapply print_mul_node_good; eauto.
+    - (* EPow *) apply andb_prop in Gk. destruct Gk as [G1 G2]. exact (print_pow_good _ _ _ G1 G2 H).
+    - (* EF1 *)
+      destruct (code =? TC_Not).
+      { rb H. oki H. pose proof (app_good _ _ Gk E). by_template. assumption. }
+      destruct (code =? TC_Abs).
+      { rb H. oki H. pose proof (app_good _ _ Gk E). by_template. assumption. }
+      destruct (code =? TC_Floor).
+      { rb H. oki H. pose proof (app_good _ _ Gk E). by_template. assumption. }
+      destruct (code =? TC_Ceiling).
+      { rb H. oki H. pose proof (app_good _ _ Gk E). by_template. assumption. }
+      eapply print_function_good; [|exact H]. simpl. unfold latex_guard. rewrite Gk. reflexivity.
+    - (* EF2 *)
+      apply andb_prop in Gk. destruct Gk as [G1 G2].
+      destruct (rel_op FLatex code) as [op|] eqn:ER.
+      + rb H. oki H. pose proof (app_good _ _ G1 E). pose proof (app_good _ _ G2 E0).
+        pose proof (rel_op_good _ _ ER). by_template; assumption.
+      + eapply print_function_good; [|exact H]. simpl. unfold latex_guard. rewrite G1, G2. reflexivity.
+    - (* EFN *)
+      destruct ((code =? TC_And) || (code =? TC_Or) || (code =? TC_Xor)); [eapply print_logic_good; eauto|].
+      unfold latex_node_ok in Gn. simpl in Gn.
+      destruct (code =? TC_FiniteSet); [simpl in Gn; discriminate|].
+      destruct (code =? TC_Union).
+      { rb H. oki H. apply good_join; [apply lit_good; reflexivity | eapply mapM_app_good; eauto]. }
+      destruct (code =? TC_Intersection).
+      { rb H. oki H. apply good_join; [apply lit_good; reflexivity | eapply mapM_app_good; eauto]. }
+      destruct (code =? TC_ConditionSet).
+      { destruct args as [|sym [|cond [|? ?]]]; try discriminate.
+        simpl in Gk. apply andb_prop in Gk. destruct Gk as [Gs Gc]. apply andb_prop in Gc. destruct Gc as [Gc _].
+        rb H. oki H. pose proof (app_good _ _ Gs E). pose proof (app_good _ _ Gc E0). by_template; assumption. }
+      destruct (code =? TC_ImageSet).
+      { destruct args as [|sym [|ex [|base [|? ?]]]]; try discriminate.
+        simpl in Gk. apply andb_prop in Gk. destruct Gk as [Gs Gk]. apply andb_prop in Gk. destruct Gk as [Gx Gk].
+        apply andb_prop in Gk. destruct Gk as [Gb _].
+        rb H. oki H. pose proof (app_good _ _ Gx E). pose proof (app_good _ _ Gs E0). pose proof (app_good _ _ Gb E1).
+        by_template; assumption. }
+      eapply print_function_good; eauto.
+    - (* EFunSym *)
+      rb H. oki H. pose proof (app_vec_good _ _ Gk E).
+      assert (good (raw nm)).
+      { apply good_raw. unfold latex_node_ok in Gn. simpl in Gn. apply andb_prop in Gn. apply Gn. }
+      unfold parenthesize. by_template; assumption.
+    - (* ELex *)
+      apply andb_prop in Gk. destruct Gk as [G1 G2].
+      destruct (code =? TC_Contains).
+      { rb H. oki H. pose proof (app_good _ _ G1 E). pose proof (app_good _ _ G2 E0). by_template; assumption. }
+      destruct (code =? TC_Complement); [|discriminate].
+      rb H. oki H. pose proof (app_good _ _ G1 E). pose proof (app_good _ _ G2 E0). by_template; assumption.
+    - (* EDeriv *)
+      apply andb_prop in Gk. destruct Gk as [Ga Gx].
+      rb H. oki H. pose proof (app_good _ _ Ga E0) as Garg.
+      destruct xs as [|x0 [|x1 xr]].
+      + discriminate.
+      + simpl in Gx. apply andb_prop in Gx. destruct Gx as [Gx0 _].
+        rb E. oki E. pose proof (app_good _ _ Gx0 E1).
+        match goal with |- good (((if ?cnd then _ else _) ++ _) ++ _) => destruct cnd end; by_template; assumption.
+      + simpl in Gx. apply andb_prop in Gx. destruct Gx as [Gx0 Gxr].
+        rb E. oki E. pose proof (deriv_groups_good _ _ _ _ Gx0 Gxr E1). by_template; auto with good.
+    - (* ESubs *)
+      apply andb_prop in Gk. destruct Gk as [Ga Gd].
+      rb H. oki H. pose proof (app_good _ _ Ga E).
+      assert (good (join t_lsubs_sep a1)).
+      { apply good_join; [apply lit_good; reflexivity|].
+        eapply (mapM_good _ (fun p => latex_guard (fst p) = true /\ latex_guard (snd p) = true)); [| |exact E0].
+        - intros p y [Gp1 Gp2] Hp. rb Hp. oki Hp.
+          pose proof (app_good _ _ Gp1 E1). pose proof (app_good _ _ Gp2 E2). by_template; assumption.
+        - apply Forall_forall. intros q Hq. rewrite forallb_forall in Gd. specialize (Gd q Hq).
+          apply andb_prop in Gd. exact Gd. }
+      by_template; assumption.
+    - (* EPw *)
+      rb H. oki H. apply good_app; [apply lit_good; reflexivity|].
+      clear Gn. revert a E. induction pl as [|[x0 c0] pl IHp]; intros a E; simpl in E.
+      + oki E. apply good_nil.
+      + simpl in Gk. apply andb_prop in Gk. destruct Gk as [Gxc Gk]. apply andb_prop in Gxc. destruct Gxc as [Gx0 Gc0].
+        destruct pl as [|p1 pl'].
+        * rb E. pose proof (app_good _ _ Gx0 E0).
+          destruct (is_true c0).
+          { oki E. by_template. assumption. }
+          rb E. oki E. pose proof (app_good _ _ Gc0 E1). by_template; assumption.
+        * rb E. oki E. pose proof (app_good _ _ Gx0 E0). pose proof (app_good _ _ Gc0 E1).
+          pose proof (IHp Gk _ E2). by_template; assumption.
+    - (* EBool *) oki H. destruct bv; apply lit_good; reflexivity.
+    - (* EInterval *)
+      unfold latex_node_ok in Gn. simpl in Gn.
+      destruct s as [ns| | | | | | | | | | | | | | | | |]; try discriminate.
+      destruct x as [nx| | | | | | | | | | | | | | | | |]; try discriminate.
+      simpl in H. oki H. pose proof (good_pnum_str ns). pose proof (good_pnum_str nx).
+      destruct lo, ro; by_template; assumption.
+    - (* EAtom *) eapply p_atom_good; eauto.
+  Qed.
+End Rec.
+
+Lemma sp_fuel_good : forall f e l, latex_guard e = true -> sp_fuel f FLatex e = Ok l -> good l.
+Proof.
+  induction f as [|f IHfuel]; intros e l G H; [discriminate|].
+  simpl in H. eapply print_node_good; [|exact G|exact H]. exact IHfuel.
+Qed.
+
+Theorem latex_balanced : forall e l, latex_guard e = true -> latex_toks e = Ok l -> latex_wf l.
+Proof. intros e l G H. apply good_latex_wf. eapply sp_fuel_good; eauto. Qed.
